@@ -179,7 +179,10 @@ r, ax = {inst['rank']}, {inst['axis']}
 shape = tuple(max(0, mint(M, f"a_n{{d}}", 2)) for d in range(r))
 shift = mint(M, "shift", 1)
 a = pt.make_placeholder("a", shape, np.float64)
-node = pt.roll(a, shift, ax)
+try:
+    node = pt.roll(a, shift, ax)
+except NotImplementedError as e:
+    not_reproduced(f"declined explicitly: {{e}}")
 data = {{"a": rnd(shape)}}
 expect = np.roll(data["a"], shift, ax)
 compare(node, data, expect)
@@ -191,7 +194,8 @@ import sys
 sys.path.insert(0, "/verif")
 import numpy as np
 import pytato as pt
-from pyvc.replaylib import M_from, mint, rnd, compare
+from pyvc.replaylib import (M_from, mint, rnd, compare, reproduced,
+                            not_reproduced)
 M = M_from(MODEL)
 """
 
@@ -1024,7 +1028,7 @@ class LowerEinsum(Contract):
                  "pytato.array:_get_einsum_access_descr_to_axis_len",
                  "pytato.array:Einsum.shape",
                  "pytato.utils:are_shape_components_equal")
-    properties = ("C02", "C11", "C01")
+    properties = ("C02", "C11", "C01", "C03")
 
     def instances(self, tier):
         out = []
@@ -1058,14 +1062,29 @@ class LowerEinsum(Contract):
         for k, sp in enumerate(ins):
             shp = [1 if (k, ax) in unit else n[ch] for ax, ch in enumerate(sp)]
             ops.append(mk_placeholder(h, f"a{k}", shape=shp))
+        # NumPy broadcasts a length-1 axis against the same letter in *other*
+        # operands; a letter repeated within one operand (a diagonal) needs
+        # equal lengths there, 1 included
+        np_ok = z3.And([shape_term(n[ch]) == 1
+                        for (k, ax) in sorted(unit)
+                        for ax2, ch in enumerate(ins[k])
+                        if ch == ins[k][ax] and (k, ax2) not in unit]
+                       + [z3.BoolVal(True)])
         try:
             node = h.call(pt.einsum, ",".join(ins) + "->" + o, *ops)
         except EngineSignal:
             raise
+        except ValueError as e:
+            h.oblige("lower.einsum.rejected=>numpy-rejects", z3.Not(np_ok),
+                     props=("C03", "C02"), info=f"{type(e).__name__}: {e}")
+            return
         except Exception as e:  # noqa: BLE001
             h.fail("lower.einsum.constructor-exception",
                    f"{type(e).__name__}: {e}", props=("C03", "C02"))
             return
+        h.oblige("lower.einsum.accepted=>numpy-accepts", np_ok,
+                 props=("C03",))
+        h.assume(np_ok)
         node = decorate(node)
         arrays = ArrayModel()
         il = lower(h, node, "lower.einsum")
@@ -1114,8 +1133,22 @@ for k, sp in enumerate(ins):
     data[f"a{{k}}"] = rnd(shp, seed=k)
     vals.append(data[f"a{{k}}"])
 spec = ",".join(ins) + "->" + o
-node = pt.einsum(spec, *ops)
-compare(node, data, np.einsum(spec, *vals), exact=False)
+try:
+    expect = np.einsum(spec, *vals)
+except ValueError as e_np:
+    expect = e_np
+try:
+    node = pt.einsum(spec, *ops)
+except ValueError as e_pt:
+    if isinstance(expect, ValueError):
+        not_reproduced(f"both reject: NumPy '{{expect}}', pytato '{{e_pt}}'")
+    reproduced(f"pt.einsum({{spec!r}}) rejects operand shapes "
+               f"{{[v.shape for v in vals]}} which NumPy accepts: {{e_pt}}")
+if isinstance(expect, ValueError):
+    reproduced(f"pt.einsum({{spec!r}}) accepts operand shapes "
+               f"{{[v.shape for v in vals]}} (result shape {{node.shape}}) which "
+               f"NumPy rejects: {{expect}}")
+compare(node, data, expect, exact=False)
 """
 
 # }}}
@@ -1181,13 +1214,18 @@ class LowerCSRMatmul(Contract):
 
     def replay(self, inst, clause, model, info):
         return REPLAY_HEADER + f"""
-import scipy.sparse as sp
 r = {inst['rank']}
 nrows, ncols = max(1, mint(M, "nrows", 3)), max(1, mint(M, "ncols", 4))
 rest = tuple(max(0, mint(M, f"m{{d}}", 2)) for d in range(r - 1))
 dense = (np.arange(nrows * ncols).reshape(nrows, ncols) % 3 == 0) * \\
     rnd((nrows, ncols))
-m = sp.csr_matrix(dense)
+class m:   # CSR parts of *dense*, by definition (scipy is not installed)
+    data = np.array([dense[i, j] for i in range(nrows) for j in range(ncols)
+                     if dense[i, j] != 0], dtype=np.float64)
+    indices = np.array([j for i in range(nrows) for j in range(ncols)
+                        if dense[i, j] != 0], dtype=np.int32)
+    indptr = np.array([0] + [int(np.count_nonzero(dense[:i + 1]))
+                             for i in range(nrows)], dtype=np.int32)
 vals = pt.make_placeholder("vals", m.data.shape, np.float64)
 cols = pt.make_placeholder("cols", m.indices.shape, np.int32)
 rs = pt.make_placeholder("rs", m.indptr.shape, np.int32)
